@@ -249,6 +249,21 @@ func discharge(obls []*Oblig, dir string, timeoutSec int, all bool) {
 					if o.Search && searchTimeoutSec > 0 {
 						t = searchTimeoutSec
 					}
+					if !all && !o.Search && !o.Ctx.NoSlice {
+						// stage 0: the same goal without the nonlinear hypotheses
+						thin := o.Ctx.ScriptThin(p.NAssume, p.NegGoal)
+						if len(thin) < len(script) {
+							t0 := t / 2
+							if t0 < 3 {
+								t0 = 3
+							}
+							r0 := solveScriptWith(allSolvers[:2], dir, fmt.Sprintf("%s_p%d_thin", o.Name, pi), thin, 1, t0, false)
+							if len(r0.Verdicts) == 1 && r0.Verdicts[0] == "unsat" {
+								results[pi] = r0
+								return
+							}
+						}
+					}
 					results[pi] = solveScript(dir, fmt.Sprintf("%s_p%d", o.Name, pi), script, 1, t, all)
 				}(pi)
 			}
